@@ -13,7 +13,7 @@ CLAIMED = {
     'C08': ('Every obligation (ring laws of SeqNum, diff/ordering over half the ring, BitField.insert/contains '
             'against a ghost receive set for widths 8..256, ack/ack_bits naming through the real header codec and '
             '_handle_ack_bits, the _recv_datagram gate accepting a genuine datagram up to the window edge exactly when it was not received before, the message gate delivering a message (APP / APP_FRAGMENT) at any offset -32767..32767 from an arbitrary 256-bit window exactly when it was not received before and never flagging a never-received message older than the window) is an SMT query over the whole value domain on every execution path of the real source; '
-            'one inductive window step from an arbitrary state covers insertion histories of any length; at the datagram gate a damaged copy (same clear-text header, other ciphertext) that arrives first is not accepted and not recorded in the window. A complementary API-only lemma (L8.8) builds BitField through its constructor and inserts 3-4 numbers at representative offsets around every window boundary at both ends of the ring: refused exactly when received before inside the window, contains() agrees - this one does not depend on the representation the state-injecting lemmas write.',
+            'one inductive window step from an arbitrary state covers insertion histories of any length; at the datagram gate a damaged copy (same clear-text header, other ciphertext) that arrives first is not accepted and not recorded in the window. A complementary API-only lemma (L8.8) builds BitField through its constructor and inserts 3 numbers at representative offsets around every window boundary at both ends of the ring: refused exactly when received before inside the window, contains() agrees - this one does not depend on the representation the state-injecting lemmas write.',
             'Trusted: the sx engine (proxy semantics for int/bit operations, validated by running the repo tests '
             'concretely through it), z3, the struct model. Bounds: values are the full 16-bit domain, offsets '
             '|d| <= 32767 as the statement says; window widths enumerated (quick 8/32/256, thorough every multiple of 8).',
@@ -29,7 +29,7 @@ CLAIMED = {
             'DESIGN.md §6 C09'),
     'C06': ('The real send()/FragmentSender.build is executed on an opaque payload of symbolic length with a symbolic MTU: '
             'the queued fragment bodies are proven (rope equality) to concatenate to the payload, each to fit a datagram, '
-            'payloads up to the limit to stay unfragmented, payloads above the fragmentation limit to be refused and a payload of exactly the limit to be accepted (limit neighbourhood with MAX_FRAGMENTS lowered to 3/8 for the unrolling); the MTU is set after an optional earlier setMTU call; a timed-out fragment is re-queued byte-identical to the original fragment message even if the process-wide MTU was changed while it was in flight. '
+            'payloads up to the limit to stay unfragmented, payloads above the fragmentation limit to be refused and a payload of exactly the limit to be accepted (limit neighbourhood with MAX_FRAGMENTS lowered to 3/8 for the unrolling); the MTU is set after an optional earlier setMTU call; a timed-out fragment is re-queued byte-identical to the original fragment message even if the process-wide MTU was changed while it was in flight, and under the message sequence number it was first sent under with the message counter anywhere on the ring. '
             'One reassembly step of the real _recvAppFragment from an arbitrary receiver context proves slot-written-once, '
             'completion <=> all slots filled, delivered payload == concatenation, other ids untouched (hence order and '
             'duplicate independence for histories of any length); an end-to-end scenario feeds the real sender\'s fragments '
@@ -99,7 +99,7 @@ CLAIMED = {
             'symbolic between chars and 4*chars), enum members by symbolic index. The real serialize_value and Serializable.loadb '
             'run through the BytesIO/struct models; proven per path: deep equality (tuples as lists), stream position == len(encoding), '
             'trailing bytes untouched, two concatenated encodings decode in sequence, and a refusal only for values outside the '
-            'documented domain. Message classes derived from another message class decode to their own class for every order of first use (L13.2); list/set/dict are refused exactly above MAX_ARRAY_LENGTH and round-trip up to it (constant lowered to 2/4 for the unrolling, L13.3).',
+            'documented domain. Message classes derived from another message class decode to their own class for every order of first use (L13.2); list/set/dict are refused exactly above MAX_ARRAY_LENGTH and round-trip up to it (constant lowered to 2/4 for the unrolling, L13.3); two enums that share their short name keep their own types (L13.4).',
             'Trusted: sx engine, struct/BytesIO models, rope/text equality, float32 packing as an uninterpreted token. Bounds: type trees '
             'of depth <= 2 plus a selection of depth 3, container arity <= 2 (thorough 3); MAX_ARRAY_LENGTH is exercised with the constant lowered (L13.3). Fields inherited from another message class are not part of a class\'s wire format (library design) and are not compared.',
             'DESIGN.md §6 C13'),
@@ -120,7 +120,7 @@ CLAIMED = {
             'symbolic NaN flag, Bool terms, enum members by symbolic index). The real toJson/fromJson/dumps/loads are executed; '
             'json.dumps/loads are modelled as the identity on plain JSON data with object keys stringified (str(int) <-> int(str) '
             'inverse) and a TypeError exactly where json.dumps would refuse. Proven per path: field-wise deep equality for both '
-            'routes, containers come back with their annotated type, toJson yields only dict/list/str/int/float/bool/None; a class derived from another message class and its base round-trip field for field whichever went through JSON first (L15.3); ten ordered pairs of classes that use the same field name with different annotations round-trip one after the other exactly as alone (L15.2).',
+            'routes, containers come back with their annotated type, toJson yields only dict/list/str/int/float/bool/None; a class derived from another message class and its base round-trip field for field whichever went through JSON first (L15.3); an enum with string values that spell the names of other members round-trips to the same members (L15.4); ten ordered pairs of classes that use the same field name with different annotations round-trip one after the other exactly as alone (L15.2).',
             'Trusted: sx engine, the json model (its contract is the documented behaviour of the json module on plain data). '
             'Outside: bytes fields (not JSON), lower-case enum member names (documented), Tuple[T, ...], more than one level of generics.',
             'DESIGN.md §6 C15'),
@@ -232,7 +232,7 @@ CLAIMED = {
             'block-listed address neither queue nor wake the loop, and a well-formed datagram from any other host is handed to the server thread. The unmodified server loop (driver of C10) runs with an '
             'established honest client B while address A - unknown, mid-handshake or connected - injects a hostile datagram (forged '
             'header of any type with valid CRC and arbitrary body bytes, a hello carrying arbitrary message bytes, an oversized datagram '
-            'of any non-hello type, a truncated copy of a genuine datagram): no exception leaves the loop, the handler lifecycle stays '
+            'of any non-hello type, a truncated copy of a genuine datagram, a header announcing an empty message area followed by 16 arbitrary tag bytes): no exception leaves the loop, the handler lifecycle stays '
             'intact, B\'s message is still delivered, B\'s key/status/token/fragments are untouched, and an unconnected address never '
             'receives more bytes than it sent. Anti-amplification with a symbolic MTU and attacker-chosen padding: a server hello is '
             'queued only for a hello of the full padded size, it is strictly smaller than that hello, and a connection that has not '
